@@ -30,3 +30,16 @@ complex128;[]int -> int
 []int -> int
 string -> int
 []string;int -> string
+# hardening round 4 — ==-comparable parameter types that declare their own Equal method, in bucket-form keys
+# (the generated Equal of the key must still ask about them: seeded change C18-m12), behind a pointer, in an
+# array, inside a struct parameter; and a map form keyed by such a type
+ID;[]int -> string
+int;ID;[]int ->
+Req -> int;Req
+*ID;string -> int
+IDP;[]string -> bool
+[2]ID;[]int -> int
+ID -> int
+# slices that are re-sliced views of one backing array (seeded change C18-m11)
+[]int;[]string -> int
+[][]int -> int
